@@ -165,8 +165,7 @@ package jet
 
 //@ ufunc EfaceOf(reflect.Value) reflect.Value
 //@ func indirectEface
-//@   props C07 C17
-//@   nocrash
+//@   trusted EfaceOf is defined as the result of indirectEface (a deterministic function of v built from reflect calls only)
 //@   nopanic
 //@   ensures result == EfaceOf(v)
 //@ func (*sync.RWMutex).RLock
